@@ -6,6 +6,7 @@ from . import c07
 
 HEADER = ('From FJ Require Import Lib.Base Spec.MachineSpec Model.RunCase Model.Faults Model.FaultCase.\n'
           'Local Open Scope N_scope.\n')
+HEADER_ENG = HEADER.replace('Model.FaultCase.', 'Model.FaultCase Model.FaultCaseEng.')
 KINDS = ('libio', 'eof_on_write', 'foreign', 'kbd')
 EXPECT = {'libio': 'reraised', 'eof_on_write': 'reraised', 'foreign': 'wrapped', 'kbd': 'stats'}
 
@@ -53,8 +54,14 @@ def coq_fcase(case, res):
     return f'mkfcase ({term}) {case["fail_at"]} {failed} {in_read} {"true" if stats and res.get("failed") else "false"}'
 
 
+def coq_fcase_eng(case, res):
+    """the same case for the ENGINE fault models (Model/FaultCaseEng.v): + the knobs that select the native loop"""
+    return (f'mkfcase_eng ({coq_fcase(case, res)}) {"true" if case.get("no_flat") else "false"} '
+            f'{case.get("last_ops") or 0}')
+
+
 def run(ctx):
-    fw.static_proofs(ctx, ['Properties/C18.v'])
+    fw.static_proofs(ctx, ['Properties/C18.v', 'Properties/C18_engines.v'])
     so = fw.build_fjcore(ctx)
     progs = io_programs(ctx, ctx.n(60, 1500), so)
     cases = []
@@ -115,6 +122,21 @@ def run(ctx):
             ctx.violation(sig, f"device raised {c['kind']} at call {c['fail_at']} ({c['engine']} engine): observed ops={r.get('ops')} "
                           f"last_ops={r.get('last_ops')} out={r['out']}; the machine stopped at call {c['fail_at']} gives {model[-300:]}",
                           {'case': c, 'observed': r, 'machine_definition': model})
+    # 3. the engine-level fault models (EngPyFaults.v / EngNativeFaults.v, proved to refine Faults.v in
+    #    Properties/C18_engines.v) on the same cases: ties the transcriptions of the exception paths to the real engines
+    oks_eng = fw.coq_eval_shards(ctx, 'c18eng', HEADER_ENG, [coq_fcase_eng(*pairs[k]) for k in idx],
+                                 'check_fault_case_eng', shard=300)
+    for k, ok, ok_eng in zip(idx, oks, oks_eng):
+        c, r = pairs[k]
+        ctx.hist('engine_fault_model', f"{c['engine']}:{'agrees' if ok_eng else 'differs' if ok_eng is False else 'not-evaluated'}")
+        if ok_eng is False and ok and len(ctx.broken) < 3:
+            # the machine-level statement holds on the observed behaviour, the engine transcription does not reproduce it
+            rc, model = fw.coq_eval_term(ctx, f'c18eng_diag{k}', HEADER_ENG, f'fault_diag_eng ({coq_fcase_eng(c, r)})')
+            ctx.broken_tie(f"engine fault model ({c['engine']} engine, Model/Eng{'Native' if c['engine'] == 'native' else 'Py'}Faults.v)",
+                           f"device raised {c['kind']} at call {c['fail_at']} ({c['engine']} engine, last_ops={c['last_ops']}, "
+                           f"no_flat={c['no_flat']}): observed failed={r.get('failed')} ops={r.get('ops')} last_ops={r.get('last_ops')} "
+                           f"out={r['out']}; the engine model gives (failed, in_read, ops, output bits, last ops) = {model[-300:]}; "
+                           f"case: {c}")
     for c, r in pairs[:3]:
         ctx.sample({'case': {k: c[k] for k in ('w', 'segs', 'input', 'engine', 'fail_at', 'kind', 'last_ops')}, 'observed': r})
     ctx.level = 'proof'
@@ -124,6 +146,8 @@ def run(ctx):
                             'ValueError, KeyboardInterrupt} x {featured, fast, native}; observables: outcome class (re-raised same '
                             'object / wrapped with __cause__ / KeyboardInterrupt statistics), device-side output record, op count and '
                             'last-ops list when statistics are returned, memory read back through DeviceMemory after the stop; '
-                            'compared with Model/Faults.v evaluated in Coq')
+                            'compared with Model/Faults.v evaluated in Coq, and with the engine fault model of the case\'s engine '
+                            '(Model/EngPyFaults.v featured/fast loop, Model/EngNativeFaults.v flat/paged/ring loop incl. '
+                            'last_run_op_count and last_run_last_ops) evaluated in Coq on the same case')
     ctx.assumptions += ['asynchronous signal delivery (SIGINT at an arbitrary instruction) is a runtime behaviour the model cannot exhibit: '
                         'only device-raised KeyboardInterrupt is enumerated; partial for that part of the property']
